@@ -112,8 +112,15 @@ fn families(run: &Run) -> Vec<SeriesFam> {
             classify,
         },
     ];
-    if run.replay.is_some() {
-        // replay may name any family; keep all
+    if !run.quick() || run.replay.is_some() {
+        // thorough: one more symbol of depth on the five-letter alphabet, f64 -> f64 only
+        let mut deeper = clone_shallow(&fams[0]);
+        deeper.name = "valid-deeper".into();
+        deeper.alpha = a5.clone();
+        deeper.max_len = 8;
+        deeper.tys = vec![ty_v1::<f64, f64>()];
+        deeper.scales = vec![];
+        fams.push(deeper);
     }
     fams.shrink_to_fit();
     fams
